@@ -59,25 +59,37 @@ Definition fres_eqb (a b : fres (list N)) : bool :=
   | FErr EInvalid, FErr EInvalid | FErr ECompression, FErr ECompression | FErr EDeser, FErr EDeser => true
   | _, _ => false
   end.
-Definition frame_case := (codec * list N * list N * fres (list N) * fres (list N) * N * N)%type.
+Definition frame_case := (codec * list N * list N * fres (list N) * fres (list N) * N * N * N * N)%type.
 Definition model_dec_code (r : fres unit) : N :=
   match r with FOk _ => 0 | FErr (ETooLarge _ _) => 2 | FErr _ => 3 end.
 Definition check_frame (cs : frame_case) : N :=
-  let '(c, s, z, iv1, iv2, d1, d2) := cs in
+  let '(c, s, z, iv1, iv2, d1, d2, r1, r2) := cs in
   let ser := fun _ : unit => s in
   let deser := fun b => if leq b s then Some tt else None in
   let comp := fun _ : list N => z in
   let decomp := fun b => if leq b z then Some s else None in
   (* oracle: whatever encode accepted, decode returned, equal to what was sent *)
-  let ok1 := match iv1 with FOk _ => N.eqb d1 0 | FErr _ => true end in
-  let ok2 := match iv2 with FOk _ => N.eqb d2 0 | FErr _ => true end in
+  (* d = decode_payload(_v2) on the frame content, r = read_frame(_v2) on the whole frame (the transport path) *)
+  let ok1 := match iv1 with FOk _ => N.eqb d1 0 && N.eqb r1 0 | FErr _ => true end in
+  let ok2 := match iv2 with FOk _ => N.eqb d2 0 && N.eqb r2 0 | FErr _ => true end in
   if negb (ok1 && ok2) then V_VIOLATION
   else
     let m1 := encode_v1 unit ser c tt in
-    let m2 := encode_v2 unit ser comp gen_v2_checks_serialized c tt in
+    let m2 := encode_v2 unit ser comp gen_v2_checks_serialized gen_v2_checks_frame c tt in
+    let rd := fun (dec : list N -> fres unit) (m : fres (list N)) =>
+      match m with
+      | FOk fr => match split_frame c fr with
+                  | FOk (p, _) => model_dec_code (dec p)
+                  | FErr (ETooLarge _ _) => 2
+                  | FErr _ => 3
+                  end
+      | FErr _ => 4
+      end in
+    let mr1 := rd (decode_payload_v1 unit deser c) m1 in
+    let mr2 := rd (decode_payload_v2 unit deser decomp c) m2 in
     let md1 := match m1 with FOk fr => model_dec_code (decode_payload_v1 unit deser c (skipn 4 fr)) | FErr _ => 4 end in
     let md2 := match m2 with FOk fr => model_dec_code (decode_payload_v2 unit deser decomp c (skipn 4 fr)) | FErr _ => 4 end in
-    if fres_eqb m1 iv1 && fres_eqb m2 iv2 && N.eqb md1 d1 && N.eqb md2 d2 then V_OK else V_MISMATCH.
+    if fres_eqb m1 iv1 && fres_eqb m2 iv2 && N.eqb md1 d1 && N.eqb md2 d2 && N.eqb mr1 r1 && N.eqb mr2 r2 then V_OK else V_MISMATCH.
 
 (* stream split on arbitrary bytes: (codec, bytes, impl read_frame class):
      0 = a payload was extracted (then decoded or failed to deserialize), 2 = MessageTooLarge,
@@ -87,3 +99,15 @@ Definition check_split (cs : split_case) : N :=
   let '(c, bs, icls) := cs in
   let m := match split_frame c bs with FOk _ => 0 | FErr (ETooLarge _ _) => 2 | FErr _ => 3 end in
   if N.eqb m icls then V_OK else V_MISMATCH.
+
+(* received sparse vectors: (dimension, positions, value bits, max_dimension, impl accepted?, a consumer panicked?).
+   The harness keeps magnitudes far below the limit, so mag_ok = true. *)
+Definition valid_case := (N * list N * list N * N * bool * bool)%type.
+Definition check_valid (cs : valid_case) : N :=
+  let '(d, ps, vs, maxd, iacc, ipanic) := cs in
+  let v := RSV d ps vs in
+  let safe := match rsv_to_dense v with Some _ => true | None => false end
+              && forallb (fun i => match rsv_get v i with Some _ => true | None => false end) (N_seq (N.min d 64)) in
+  (* oracle: an accepted vector is well formed and no consumer panicked on it *)
+  if iacc && (ipanic || negb safe) then V_VIOLATION
+  else if Bool.eqb (validate_rsv (VC gen_vc_lens gen_vc_bounds_all gen_vc_sorted) maxd true v) iacc then V_OK else V_MISMATCH.
